@@ -17,6 +17,11 @@ import (
 type Scn struct {
 	Name  string
 	Bound int
+	// Unbounded asks for the unbounded (all interleavings) search with a private
+	// time cap; it is a bonus on top of the bounded result: not finishing it does
+	// not make the check non-exhaustive.
+	Unbounded    bool
+	UnboundedCap time.Duration
 	// Run executes the scenario once on a fresh world and judges it.
 	Run func(ch vrt.Chooser, trace bool) *ScnResult
 }
@@ -99,6 +104,16 @@ func scnFamily(s string) string {
 func exploreScn(c *harness.Ctx, prop string, s *Scn) bool {
 	var lastDetails map[string]any
 	x := &vrt.Explorer{Bound: s.Bound, Deadline: c.Deadline}
+	if s.Unbounded {
+		x.Unbounded = true
+		capd := s.UnboundedCap
+		if capd == 0 {
+			capd = 60 * time.Second
+		}
+		if dl := time.Now().Add(capd); c.Deadline.IsZero() || dl.Before(c.Deadline) {
+			x.Deadline = dl
+		}
+	}
 	x.Run = func(ch vrt.Chooser, trace bool) *vrt.Result {
 		sr := s.Run(ch, trace)
 		if sr.R.Violation != nil {
@@ -124,7 +139,9 @@ func exploreScn(c *harness.Ctx, prop string, s *Scn) bool {
 	if len(x.Stats.Outcomes) == 1 && x.Stats.Executions > 1000 {
 		c.Note("vacuity warning: scenario %s: %d executions, 1 distinct outcome", s.Name, x.Stats.Executions)
 	}
-	if old, ok := c.Res.Extra["min_bound_completed"].(float64); !ok || float64(x.Stats.BoundDone) < old {
+	if s.Unbounded {
+		// not part of the bounded statistics
+	} else if old, ok := c.Res.Extra["min_bound_completed"].(float64); !ok || float64(x.Stats.BoundDone) < old {
 		c.Res.Extra["min_bound_completed"] = float64(x.Stats.BoundDone)
 	}
 	if len(c.Res.Samples) < 3 {
@@ -146,6 +163,20 @@ func exploreScn(c *harness.Ctx, prop string, s *Scn) bool {
 			lastDetails = r1.Details
 		}
 		c.Violation(f.V.Rule, f.V.Sig, fmt.Sprintf("[%s, %d deviations] %s", s.Name, f.Bound, f.V.Message), rep)
+	}
+	if s.Unbounded {
+		add := func(k string, v float64) {
+			old, _ := c.Res.Extra[k].(float64)
+			c.Res.Extra[k] = old + v
+		}
+		add("unbounded_attempted", 1)
+		if x.Stats.Exhaustive {
+			add("unbounded_completed", 1)
+			c.Note("unbounded search completed for %s: %d executions, %d happens-before states, %d outcomes", s.Name, x.Stats.Executions, x.Stats.States, len(x.Stats.Outcomes))
+		} else if f == nil {
+			c.Note("unbounded search for %s stopped at its time cap after %d executions, %d states (the bounded result stands)", s.Name, x.Stats.Executions, x.Stats.States)
+		}
+		return !c.Expired() || true
 	}
 	if !x.Stats.Exhaustive && f == nil {
 		c.Res.Exhaustive = false
